@@ -84,7 +84,7 @@ def augment(lines, impl, gran=None, noatime=False, fault_by_step=None):
 
 
 def run_model(lines, timeout=300):
-    p = subprocess.run([C.KMODEL, "scenario"], input="\n".join(lines) + "\n", stdout=subprocess.PIPE, stderr=subprocess.PIPE, text=True, encoding="utf-8", errors="surrogateescape", timeout=timeout)
+    p = subprocess.run(["bash", "-c", "ulimit -s unlimited 2>/dev/null; exec %s scenario" % C.KMODEL], input="\n".join(lines) + "\n", stdout=subprocess.PIPE, stderr=subprocess.PIPE, text=True, encoding="utf-8", errors="surrogateescape", timeout=timeout)
     results, snaps = parse_stdout(p.stdout)
     steps = T.parse_log(p.stdout.split("\n"), "")
     return ImplRun(results, snaps, steps, p.stdout.split("\n"), p.returncode, p.stdout + p.stderr)
